@@ -495,6 +495,10 @@ fn check(args: &[String]) -> Result<i32, String> {
     let exe = std::env::current_exe().map_err(|e| e.to_string())?;
     if !crashed.is_empty() {
         let (run, why) = &crashed[0];
+        if why.contains("HARNESS-ERROR") {
+            // the worker stopped because the harness itself could not do its job: never a verdict on the code under test
+            return Err(format!("worker stopped at run {run}: {why}"));
+        }
         // a worker died inside a run: abort / stack overflow / OOM. Replay file = the unshrunk scenario.
         let sc = p.gen(run_seed(seed, &id, *run));
         let path = format!("{vd}/replays/{id}-crash-{seed}-{run}.json");
